@@ -120,7 +120,7 @@ pub fn gen_mag_pair(r: &mut Rng) -> (f64, f64) {
     let b = match r.below(10) {
         0..=3 => gen_mag(r),
         4 => a,
-        5 => ulps(a, r.range(-8, 8)).abs(),
+        5 => { let m = ulps(a, r.range(-8, 8)).abs(); if m >= 1e-100 { m } else { a } }
         6 => (a + ulps(1e-10, r.range(-2, 2)) * if r.chance(1, 2) { 1.0 } else { -1.0 }).abs(),
         7 => a * (1.0 + *r.pick(&[1e-16, 1e-14, 1e-12, 1e-9, 1e-6]) * (r.unit() - 0.5)),
         8 => a * *r.pick(&[1e-30, 1e30, 1e-8, 1e8]),
@@ -162,7 +162,7 @@ pub fn gen_list(r: &mut Rng) -> Vec<Geonum> {
                 0 => o,
                 1 => Geonum::new_with_angle(o.mag, mk_angle(o.angle.blade() + 4 * (1 + r.below(5) as usize), o.angle.rem())),
                 2 => Geonum::new_with_angle(o.mag, gen_angle(r)),
-                3 => Geonum::new_with_angle(ulps(o.mag, r.range(-2, 2)).abs(), o.angle),
+                3 => { let m = ulps(o.mag, r.range(-2, 2)).abs(); Geonum::new_with_angle(if m >= 1e-100 && m <= 1e100 { m } else { o.mag }, o.angle) }
                 _ => Geonum::new_with_angle(0.0, o.angle),
             }
         } else { gen_geonum(r) };
